@@ -77,7 +77,8 @@ def detect(name):
     assert rc == 0, out
     res = {"owner": owner, "checks": {}}
     try:
-        order = [owner] + [c for c in ALL if c != owner]
+        owner_only = os.environ.get("SEED_OWNER_ONLY") == "1"
+        order = [owner] + ([] if owner_only else [c for c in ALL if c != owner])
         for c in order:
             runs = 2 if c == owner else 1
             outs = []
@@ -91,8 +92,21 @@ def detect(name):
         o = res["checks"][owner]
         res["owner_detects"] = all(x["exit"] == 1 and x["violations"] > 0 for x in o)
         res["same_first_witness"] = len(set(x["first"] for x in o)) == 1
-        res["others_detecting"] = [c for c in ALL if c != owner and res["checks"][c][0]["exit"] == 1]
-        res["machinery_errors"] = [c for c in ALL if any(x["exit"] not in (0, 1) for x in res["checks"][c])]
+        if owner_only:
+            # keep what an earlier full pass recorded about the other checks
+            prev = {}
+            try:
+                prev = json.load(open(f"{d}/result.json")).get("detect", {})
+            except Exception:
+                pass
+            res["others_detecting"] = prev.get("others_detecting", [])
+            res["others_from_earlier_pass"] = True
+            for c, v in prev.get("checks", {}).items():
+                if c != owner:
+                    res["checks"][c] = v
+        else:
+            res["others_detecting"] = [c for c in ALL if c != owner and res["checks"][c][0]["exit"] == 1]
+        res["machinery_errors"] = [c for c in res["checks"] if any(x["exit"] not in (0, 1) for x in res["checks"][c])]
     finally:
         sh("git -C /repo checkout -- .")
         rc, out = sh("git -C /repo status --porcelain --untracked-files=no")
